@@ -119,15 +119,15 @@ Definition memchr_s (c : cfg) (dest dmax ch resultp destbos : Z) : prog Z :=
     if dest =? 0 then hfail HMem ESNULLP
     else if dmax =? 0 then hfail HMem ESZEROL
     else chk_max_ovr HMem (rmax_mem c) dmax destbos (fun _ =>
-      if 255 <? sx32 (ch mod 4294967296) then hfail HStr ESLEMAX
+      if 255 <? sx32 (ch mod 4294967296) then hfail HMem ESLEMAX
       else memchr_m (Z.to_nat dmax) dest ch (fun r => Store 8 resultp r (if r =? 0 then Ret ESNOTFND else Ret EOK)))).
 Definition memrchr_core (c : cfg) (dest dmax ch resultp destbos : Z) : prog Z :=
-  if resultp =? 0 then hfail HStr ESNULLP
+  if resultp =? 0 then hfail HMem ESNULLP
   else Store 8 resultp 0 (
     if dest =? 0 then hfail HMem ESNULLP
     else if dmax =? 0 then hfail HMem ESZEROL
     else chk_max_ovr HMem (rmax_mem c) dmax destbos (fun _ =>
-      if 255 <? sx32 (ch mod 4294967296) then hfail HStr ESLEMAX
+      if 255 <? sx32 (ch mod 4294967296) then hfail HMem ESLEMAX
       else memrchr_m (Z.to_nat dmax) dest ch (fun r => Store 8 resultp r (if r =? 0 then Ret ESNOTFND else Ret EOK)))).
 Definition memrchr_s := memrchr_core.
 
